@@ -239,6 +239,32 @@ func (e edit) String() string {
 	return e.Kind
 }
 
+// joinStrings renders Join histories: the outer map binds keys to inner vars.
+func joinStrings(es []edit) []string {
+	out := make([]string, len(es))
+	for i, e := range es {
+		switch e.Kind {
+		case "set":
+			out[i] = fmt.Sprintf("outer[%d]=inner%d", e.K, e.V)
+		case "del":
+			out[i] = fmt.Sprintf("delete(outer,%d)", e.K)
+		case "rebuild":
+			parts := []string{}
+			for _, en := range sortedEntries(e.M) {
+				parts = append(parts, fmt.Sprintf("%d:inner%d", en.K, en.V))
+			}
+			out[i] = "outer=fresh{" + strings.Join(parts, " ") + "}"
+		case "unobs":
+			out[i] = "unobserve(join)"
+		case "obs":
+			out[i] = "observe(join)"
+		default:
+			out[i] = e.String()
+		}
+	}
+	return out
+}
+
 func editStrings(es []edit) []string {
 	out := make([]string, len(es))
 	for i, e := range es {
@@ -577,7 +603,9 @@ func genSpec(r *hx.Rand, kind string) opSpec {
 }
 
 // dependsOnPrevious: the operator's value is a function of the inputs at its last TWO recomputes.
-func dependsOnPrevious(name string) bool { return name == "Changes" || name == "Added" || name == "Removed" }
+func dependsOnPrevious(name string) bool {
+	return name == "Changes" || name == "Added" || name == "Removed"
+}
 
 type step struct {
 	in  inputs
@@ -616,7 +644,7 @@ func runSimple(spec opSpec, edits []edit) simpleResult {
 	spec.build(w)
 	cur := inputs{L: map[int]int{}, R: map[int]int{}, Lo: 0, Hi: nKeys}
 	seen := inputs{L: map[int]int{}, R: map[int]int{}} // inputs at the last recompute
-	prevSeen := seen                                  // and at the one before
+	prevSeen := seen                                   // and at the one before
 	unobserve := w.observe()
 	observed, fresh, dirty := true, true, false
 	setSide := func(side int, m map[int]int, rebuilt bool, mutate func(pmap.Map[int, int]) pmap.Map[int, int]) {
@@ -1253,7 +1281,29 @@ func evsCoq(steps []selStep) string {
 	return "[" + strings.Join(parts, "; ") + "]"
 }
 
+// probeJoinRelink decides which variant of the Join model the implementation corresponds to
+// (Mapi.Join's `fixed` parameter) by running the five-step relink reproduction once: observe,
+// pass, unobserve, write the inner var, observe again, pass. true = the joined map shows the
+// new value, i.e. the join re-reads its inner incrementals after it re-enters the graph.
+func probeJoinRelink() bool {
+	g := incr.New()
+	a := incr.Var(g, 1)
+	outer := incr.Var(g, pmap.New[int, incr.Incr[int]]().Set(0, incr.Incr[int](a)))
+	j := mapi.Join(g, outer)
+	o := incr.MustObserve(g, j)
+	_ = g.Stabilize(ctx)
+	o.Unobserve(ctx)
+	a.Set(5)
+	o = incr.MustObserve(g, j)
+	_ = g.Stabilize(ctx)
+	v, _ := o.Value().Get(0)
+	return v == 5
+}
+
+var joinFixed bool
+
 func main() {
+	joinFixed = probeJoinRelink()
 	var (
 		count    = flag.Int("n", 40, "histories per operator kind")
 		episodes = flag.Int("len", 8, "episodes per history")
@@ -1388,11 +1438,11 @@ func main() {
 				if sres.movedInner {
 					key += ":inner-moved-between-keys"
 				}
-				report(key, fmt.Sprintf("mapi.Join: %s: got %v want %v after %v (inner vars start at index+1)", f.what, f.got, f.want, editStrings(small)),
-					map[string]any{"operator": "Join", "edits": small, "script": editStrings(small), "got": f.got.String(), "want": f.want.String(),
-						"note": "set[k]=x binds key k to inner var x; inner x.Set(v) writes it"})
+				report(key, fmt.Sprintf("mapi.Join: %s: got %v want %v after %v (innerN starts at N+1)", f.what, f.got, f.want, joinStrings(small)),
+					map[string]any{"operator": "Join", "edits": small, "script": joinStrings(small), "got": f.got.String(), "want": f.want.String(),
+						"note": "inner vars inner0..inner7 start with values 1..8; the join is observed from the start; {k v} pairs are (key, value)"})
 			}
-			text := fmt.Sprintf("CJoin false %s %s", entriesCoq(res.vals0), evsCoq(res.steps))
+			text := fmt.Sprintf("CJoin %s %s %s", hx.Bool(joinFixed), entriesCoq(res.vals0), evsCoq(res.steps))
 			passes := 0
 			for _, s := range res.steps {
 				if s.out != nil && len((*s.out)[0]) > 0 {
@@ -1404,7 +1454,7 @@ func main() {
 			}
 			cases = append(cases, coqCase{text, "Join"})
 			if i == 1 {
-				rep.Samples = append(rep.Samples, map[string]any{"operator": "Join", "script": editStrings(edits)})
+				rep.Samples = append(rep.Samples, map[string]any{"operator": "Join", "script": joinStrings(edits)})
 			}
 		}
 	}
